@@ -44,8 +44,8 @@ def guard_free(name, model, opts):
     return True
 
 
-def make(rng, tier):
-    name = NAMES[int(rng.integers(0, len(NAMES)))]
+def make(rng, tier, tied_stratum=None):
+    name = tied_stratum or NAMES[int(rng.integers(0, len(NAMES)))]
     K = int(rng.integers(2, 4))
     D = int(rng.integers(2, 5))
     N = 4 * K * D + int(rng.integers(0, 12))
@@ -53,6 +53,8 @@ def make(rng, tier):
         lead = (int(rng.integers(1, 3)),)
     else:
         lead = () if rng.random() < 0.5 else (int(rng.integers(1, 4)),)
+    if tied_stratum:
+        lead = (int(rng.integers(2, 4)),)
     data = mm.make_data(rng, name, K, D, N, lead, separation=float(rng.choice([1.0, 2.5, 5.0])))
     init = mm.make_init(rng, K, N, lead, 'positive')
     o = {}
@@ -65,14 +67,25 @@ def make(rng, tier):
     else:
         wcas = [(-1,), -1, -2] + ([(-3,), (-3, -1)] if nd >= 3 else [])
         o['weight_constant_axis'] = wcas[int(rng.integers(0, len(wcas)))]
-    if rng.random() < 0.4:
-        o['saliency'] = rng.uniform(0.3, 2.0, size=(*lead, N))
+    if rng.random() < 0.45:
+        sal = rng.uniform(0.3, 2.0, size=(*lead, N))
+        if lead and rng.random() < 0.7:
+            # totals that differ between the independent slices (e.g. repetition counts / power per frequency)
+            sal = sal * 10.0 ** rng.uniform(-1.5, 1.5, size=(*lead, 1))
+        o['saliency'] = sal
     if name == 'cacgmm':
         o['covariance_norm'] = ['eigenvalue', 'trace', False][int(rng.integers(0, 3))]
         o['affiliation_eps'] = float(rng.choice([0.0, 0.0, 1e-10]))
     if name == 'gmm':
         o['covariance_type'] = ['full', 'diagonal', 'spherical'][int(rng.integers(0, 3))]
     iters = int(rng.integers(3, 13)) if tier == 'quick' else int(rng.integers(3, 51))
+    if tier == 'quick' and 'saliency' in o and lead and rng.random() < 0.6:
+        iters = int(rng.integers(20, 36))        # late-iteration decreases need a longer history
+    if tied_stratum:
+        # weights tied across the independent axis + saliency totals differing per slice + a long history
+        o['weight_constant_axis'] = [(-3,), (-3, -1)][int(rng.integers(0, 2))]
+        o['saliency'] = np.floor(rng.uniform(1, 4, size=(*lead, N))) * 10.0 ** rng.uniform(-1.5, 1.5, size=(*lead, 1))
+        iters = int(rng.integers(25, 36))
     rp = {'model': name, 'data': {k: v for k, v in data.items() if k != 'labels'}, 'init': init, 'opts': o, 'iterations': iters}
     label = 'EM ascent %s K=%d D=%d N=%d lead=%s iters=%d opts=%s' % (name, K, D, N, lead, iters, mm.describe_options(o))
     fail, key, coq, nt = evaluate(rp, rng)
@@ -146,7 +159,10 @@ def evaluate(rp, rng):
 
 def cases(rng, tier):
     n = 36 if tier == 'quick' else 300
-    return [make(rng, tier) for _ in range(n)]
+    out = [make(rng, tier) for _ in range(n)]
+    for i in range(8 if tier == 'quick' else 60):
+        out.append(make(rng, tier, tied_stratum=['cacgmm', 'cwmm', 'gmm', 'gcacgmm'][i % 4]))
+    return out
 
 
 def search(rng, tier, hints):
